@@ -286,6 +286,9 @@ def replay(ctx, case):
     check(ctx, case)
 
 
+FUZZ_IMPORTS = ['mwlib.core.nshandling']
+
+
 def run_shard(ctx):
     n = ctx.n(40000, 1600000)
 
@@ -307,4 +310,5 @@ def run_shard(ctx):
         check(ctx, case)
 
     ctx.run_given(t)
+    ctx.fuzz_campaign("", (0, 640000))
     ctx.note("ambiguous_namespace_names_skipped", sum(site(l, False)[3] for l in LANGS) if ctx.shard == 0 else 0)
